@@ -51,16 +51,34 @@ pub fn gram_schmidt(rows: &[Vec<f64>]) -> Vec<Vec<f64>> {
     for r in rows {
         let mut v = r.clone();
         for (u, &nu) in out.iter().zip(norms.iter()) {
-            let dot: f64 = v.iter().zip(u.iter()).map(|(a, b)| a * b).sum();
-            let c = dot / nu;
+            let c = dot(&v, u) / nu;
             for (x, y) in v.iter_mut().zip(u.iter()) {
                 *x -= c * y;
             }
         }
-        norms.push(v.iter().map(|a| a * a).sum());
+        norms.push(dot(&v, &v));
         out.push(v);
     }
     out
+}
+
+/// Dot product with four independent accumulators (lets the compiler vectorise the loop).
+pub fn dot(a: &[f64], b: &[f64]) -> f64 {
+    let mut acc = [0.0f64; 4];
+    let n = a.len().min(b.len());
+    let (ca, cb) = (a[..n].chunks_exact(4), b[..n].chunks_exact(4));
+    let (ra, rb) = (ca.remainder(), cb.remainder());
+    for (x, y) in ca.zip(cb) {
+        acc[0] += x[0] * y[0];
+        acc[1] += x[1] * y[1];
+        acc[2] += x[2] * y[2];
+        acc[3] += x[3] * y[3];
+    }
+    let mut tail = 0.0;
+    for (x, y) in ra.iter().zip(rb.iter()) {
+        tail += x * y;
+    }
+    (acc[0] + acc[1]) + (acc[2] + acc[3]) + tail
 }
 
 pub fn norm(v: &[f64]) -> f64 {
